@@ -113,7 +113,11 @@ def strategy(tier):
     # Counter, ChainMap, mappingproxy, namedtuple, SimpleNamespace); judged by the syntax-tree walk with a level band
     from .. import stdvals
     S = values.strategies()
-    gleaf = st.one_of(S['r_int'], S['r_str'])
+    gleaf = st.one_of(S['r_int'], S['r_str'], S['r_int'], S['r_str'],
+                      # scalars in the wrapper of a user subclass (IntEnum members included)
+                      st.tuples(st.sampled_from(['plain', 'repr']), S['r_int']).map(lambda p: ['sub', 'int', p[0], p[1]]),
+                      st.sampled_from([['sub', 'int', 'enum', ['int', 1]], ['sub', 'float', 'plain', ['float', '2.5']], ['sub', 'float', 'repr', ['float', 'inf']],
+                                       ['sub', 'str', 'plain', ['str', 'text']], ['sub', 'bytes', 'plain', ['bytes', '6162']], ['sub', 'str', 'enum', ['str', 'a']]]))
     ghash = st.recursive(gleaf, S['hashable_ext'], max_leaves=5)
 
     def gext(ch):
@@ -244,6 +248,25 @@ def placeholder_for(full):
     return ast.dump(ast.parse(src, mode='eval').body)
 
 
+_SCALAR_WRAPPERS = set()
+
+
+def _scalar_wrapper(func):
+    """is `func` one of the generated subclasses of int / float / str / bytes (not a pretty_call object such as Box)"""
+    if not _SCALAR_WRAPPERS:
+        from .. import vtypes
+        _SCALAR_WRAPPERS.update(cls.__qualname__ for (base, _), cls in vtypes.SUBCLASSES.items() if base in ('int', 'float', 'str', 'bytes'))
+    return isinstance(func, ast.Attribute) and func.attr in _SCALAR_WRAPPERS
+
+
+def _is_scalar(e):
+    if isinstance(e, ast.UnaryOp):
+        e = e.operand
+    return isinstance(e, ast.Constant) and type(e.value) in (int, float, str, bytes) or (
+        isinstance(e, ast.Call) and isinstance(e.func, ast.Name) and e.func.id == 'float' and len(e.args) == 1
+        and isinstance(e.args[0], ast.Constant) and isinstance(e.args[0].value, str))
+
+
 def looks_like_placeholder(n):
     if _is_ell(n):
         return True
@@ -265,6 +288,8 @@ def children(n, a, b):
             out.append((v, a + 1, b + 1, False))
         return out
     if isinstance(n, ast.Call):
+        if len(n.args) == 1 and not n.keywords and _is_scalar(n.args[0]) and _scalar_wrapper(n.func):
+            return []       # Sub(5), Sub('text'): a scalar in the wrapper of its subclass is a leaf, not a container
         out = []
         for e in n.args:
             if isinstance(e, (ast.List, ast.Dict, ast.Tuple)):
@@ -376,6 +401,9 @@ def fixed_cases():
         yield {'v': ['std', 'ddict', 'list', [[['str', 'k'], inner]]], 'd': d, 'width': 79, 'generic': True}
         yield {'v': ['std', 'ntuple', 'Point', [inner, ['int', 5]]], 'd': d, 'width': 79, 'generic': True}
         yield {'v': ['call', 'box', [inner], []], 'd': d, 'width': 79, 'generic': True}
+        scal = [['sub', 'int', 'plain', ['int', 5]], ['sub', 'int', 'enum', ['int', 1]], ['sub', 'float', 'plain', ['float', '2.5']], ['sub', 'str', 'plain', ['str', 'text']]]
+        yield {'v': ['list', scal + [['list', scal + [['list', scal]]]]], 'd': d, 'width': 79, 'generic': True}
+        yield {'v': ['dict', [[scal[0], ['tuple', [scal[1], ['call', 'box', [scal[2]], [['a', scal[3]]]]]]]]], 'd': d, 'width': 79, 'generic': True}
         yield {'v': ['sub', 'list', 'plain', ['list', [inner, ['sub', 'dict', 'repr', ['dict', [[['str', 'k'], inner]]]]]]], 'd': d, 'width': 79, 'generic': True}
         yield {'v': ['list', [['sub', 'tuple', 'plain', ['tuple', [inner]]], ['sub', 'frozenset', 'plain', ['fset', [['int', 1]]]], ['sub', 'set', 'plain', ['set', []]]]], 'd': d, 'width': 79, 'generic': True}
         yield {'v': ['call', 'alt', [inner, ['int', 4]], [['a', inner]]], 'd': d, 'width': 79, 'generic': True}
